@@ -102,7 +102,8 @@ theorem Keeps.insertLeaf (parent : Option Nat) (cur : Leaf) (key lsn : Nat) (val
     Keeps (insertLeaf parent cur key lsn value root) := by
   rw [insertLeaf_eq]
   exact Keeps.ite (Keeps.throw _) (Keeps.ite (Keeps.throw _) (Keeps.ite (Keeps.unmodelledS _)
-    ((Keeps.putNode _ _).bind fun _ => Keeps.ite (Keeps.pure _) (Keeps.leafSplit _ _ _ _))))
+    (Keeps.ite (Keeps.unmodelledS _)
+    ((Keeps.putNode _ _).bind fun _ => Keeps.ite (Keeps.pure _) (Keeps.leafSplit _ _ _ _)))))
 
 theorem Keeps.intSplitUp (parent : Option Nat) (curOff newOff midKey lsn root1 : Nat) :
     Keeps (intSplitUp parent curOff newOff midKey lsn root1) := by
